@@ -19,8 +19,9 @@ EXTRA = [b"\x05", b"\x19", b"\x04", b"\x15", b"\x06", b"\x02", b"z\n", b"z.", b"
          b":se hll\n", b":se nohll\n", b":se nohl\n", b":se hl\n", b"u", b"\x12", b"\x0c", b"\x07", b"G", b"1G", b"$", b"0",
          b"ggyGP", b"c5jXY\x1b", b"3ccZ\x1b", b"cGq\x1b", b"c}w\x1b", b"d4j", b"5dd", b"dG", b"4J", b"3>>", b"c9j\x1b", b"2Gc7jQ\x1b", b"d}", b"5x", b"yjP", b"y3jp",
          b"3Gc9jNEW\x1b", b"HcLx\x1b", b"McGy\x1b", b"Hd2j", b"Lc2kz\x1b", b"\x04c3jw\x1b", b"\x05\x05c4jv\x1b",
-         b":1,2p\n\n", b":s/a/AAAAAAAAAAAAAAAAAAAAAAAAAAAAAAAAAAAAAAAAAAAAAAAAAAAAAAAAAAAAAAAAAA/\n", b"yyP", b"dd", b"5o\x1b", b"J"]
-SIZES = [(5, 14), (8, 24), (12, 40), (24, 80), (4, 12), (24, 30)]
+         b":1,2p\n\n", b":s/a/AAAAAAAAAAAAAAAAAAAAAAAAAAAAAAAAAAAAAAAAAAAAAAAAAAAAAAAAAAAAAAAAAA/\n", b"yyP", b"dd", b"5o\x1b", b"J",
+         b":2d|se xyz\n", b":1,3p|se xyz\n\n", b":$d|9999\n", b":e +99 nosuchfile\n:e #\n"]      # ex lines that change the text and then fail
+SIZES = [(5, 14), (8, 24), (12, 40), (24, 80), (4, 12), (24, 30), (11, 40), (9, 24)]       # odd heights: two windows of different height
 
 
 CORPUS = [(b"ia\nb\nc\x1bggdGsx\x1b", (6, 24)), (b"ia\nb\nc\x1bggdGcwx\x1b", (6, 24)), (b"ia\nb\nc\x1bggdGCx\x1b", (8, 24)),
@@ -43,8 +44,8 @@ def session(ctx, sc, k):
             b"$%d|" % (2 * C), b"$%d|" % (2 * C + 1), b"$0", b"$^", b"$%dh" % (C - 1), b"$%dh" % C, b"$%dh" % (C + 1)]
     # one session in four edits a named file and splits, switches, swaps and closes windows (^W s j k x o c): the active window's
     # rows, wherever they begin on the terminal, must be a repaint of its buffer
-    windows = k % 4 == 3 and R >= 8
-    wcmds = [b"\x17s", b"\x17j", b"\x17k", b"\x17x", b"\x17o", b"\x17c", b"\x17s", b"\x17j", b"\x17k"]
+    windows = k % 4 in (2, 3) and R >= 8
+    wcmds = [b"\x17s", b"\x17j", b"\x17k", b"\x17x", b"\x17o", b"\x17c", b"\x17s", b"\x17j", b"\x17k", b"\x17x", b"w\x17gd", b"\x17s\x17j4j\x17x"]
     for s in sc["steps"]:
         keys += txt(s["keys"]).encode("utf-8", "surrogateescape")
         if rng.random() < 0.3:
